@@ -105,26 +105,28 @@ fn gen_string(rng: &mut Rng) -> String {
 }
 
 /// conversions from socket-address typed values (lossless): checked directly, no model column
-fn typed_conversions(rng: &mut Rng, n: u64) -> (u64, u64) {
+fn typed_conversions(rng: &mut Rng, n: u64) -> (u64, u64, String) {
     let mut bad = 0;
+    let mut first = String::new();
     for _ in 0..n {
         let port = rng.below(65536) as u16;
         let v4 = Ipv4Addr::from((rng.next() as u32).to_be_bytes());
         let v6 = Ipv6Addr::from((((rng.next() as u128) << 64) | rng.next() as u128).to_be_bytes());
         let a4 = SocketAddrV4::new(v4, port);
-        let a6 = SocketAddrV6::new(v6, port, 0, 0);
+        let (flow, scope) = if rng.chance(1, 2) { (rng.next() as u32, rng.next() as u32) } else { (0, rng.below(4) as u32) };
+        let a6 = SocketAddrV6::new(v6, port, flow, scope);
         let checks: Vec<(RemoteAddr, SocketAddr)> = vec![
             (a4.to_remote_addr().unwrap(), SocketAddr::V4(a4)),
             (a6.to_remote_addr().unwrap(), SocketAddr::V6(a6)),
             (SocketAddr::V4(a4).to_remote_addr().unwrap(), SocketAddr::V4(a4)),
             (SocketAddr::V6(a6).to_remote_addr().unwrap(), SocketAddr::V6(a6)),
             ((v4, port).to_remote_addr().unwrap(), SocketAddr::V4(a4)),
-            ((v6, port).to_remote_addr().unwrap(), SocketAddr::V6(a6)),
+            ((v6, port).to_remote_addr().unwrap(), SocketAddr::V6(SocketAddrV6::new(v6, port, 0, 0))),
             ((IpAddr::V4(v4), port).to_remote_addr().unwrap(), SocketAddr::V4(a4)),
             ((v4.to_string().as_str(), port).to_remote_addr().unwrap(), SocketAddr::V4(a4)),
             ((v4.to_string(), port).to_remote_addr().unwrap(), SocketAddr::V4(a4)),
         ];
-        for (r, a) in checks {
+        for (k, (r, a)) in checks.into_iter().enumerate() {
             let ok = r == RemoteAddr::Socket(a)
                 && r.is_socket_addr()
                 && !r.is_string()
@@ -133,10 +135,13 @@ fn typed_conversions(rng: &mut Rng, n: u64) -> (u64, u64) {
                 && r.to_string() == a.to_string();
             if !ok {
                 bad += 1;
+                if first.is_empty() {
+                    first = format!("conversion#{} of {:?} gave {:?}", k, a, r);
+                }
             }
         }
     }
-    (n * 9, bad)
+    (n * 9, bad, first)
 }
 
 fn main() {
@@ -156,8 +161,8 @@ fn main() {
                 let (c, i, o, t) = run_case(&s);
                 emit(&mut out, &c, &i, &o, &t);
             }
-            let (n, bad) = typed_conversions(&mut rng, n / 4 + 1);
-            emit(&mut out, "#typed", &format!("{} {}", n, bad), if bad == 0 { "ok" } else { "FAIL" }, "typed");
+            let (n, bad, first) = typed_conversions(&mut rng, n / 4 + 1);
+            emit(&mut out, "#typed", &format!("{} conversions, {} lossy; first: {}", n, bad, first), if bad == 0 { "ok" } else { "FAIL" }, "typed");
         }
         "run" => {
             for line in stdin_lines() {
